@@ -91,7 +91,14 @@ def judge_impl(case, o):
 def run_cases(binp, cases, timeout=2400):
     inp = '\n'.join(case_line(c) for c in cases) + '\n'
     rc, out = sh(binp, input=inp, timeout=timeout)
-    return rc, [parse_out(l) for l in out.split('\n') if l.startswith('T')]
+    res = []
+    for l in out.split('\n'):
+        if l.startswith('T'):
+            try:
+                res.append(parse_out(l))
+            except Exception:
+                break            # a line cut short: the process died while writing it
+    return rc, res
 
 
 def shrink(hbin, case, pred):
@@ -148,6 +155,20 @@ def run(ck):
         cases.append(gen_case(ck.rng, 20000))
     rc1, impl = run_cases(hbin, cases)
     rc2, model = run_cases(mbin, cases)
+    if rc1 != 0 and len(impl) < len(cases):
+        # the real coder died on the case after the last complete answer: that case is the failing input
+        pre = cases[:len(impl) + 1]
+        alone = None
+        for c_ in reversed(pre[-8:]):
+            rcx, resx = run_cases(hbin, [c_], timeout=120)
+            if rcx != 0:
+                alone = c_; break
+        if alone is not None:
+            ck.violation('coder_crashes', 'the real range coder does not survive a valid symbol sequence (the harness dies on this case alone): %d contexts, %d operations' % (len(alone[1]), len(alone[2])),
+                         dict(case=dict(adapt=alone[0], contexts=alone[1], ops=alone[2][:2000], n_ops=len(alone[2])), case_line=case_line(alone)[:20000]), True)
+        else:
+            ck.violation('coder_crashes_in_sequence', 'the real range coder dies (harness exit %d) while coding case %d of a sequence of valid cases; each of the last cases passes alone, the sequence is the replay' % (rc1, len(impl)),
+                         dict(n_cases=len(pre), case_lines=[case_line(c_)[:4000] for c_ in pre[-8:]]), True)
     ck.obligation('harness and model driver ran on all cases', rc1 == 0 and rc2 == 0 and len(impl) == len(cases) == len(model), 'rc=%d/%d n=%d/%d/%d' % (rc1, rc2, len(impl), len(model), len(cases)))
     stats = dict(adapt=0, ops=0, bools=0, lens={}, alph={})
     nviol = 0; ndiff = 0; first_diff = None; nvalid = 0
